@@ -1,8 +1,10 @@
 /-
   C05 — helper lemmas (core Lean only): `strings.Cut`, the PAC entry parser in closed form,
-  `DialRedirectFromHostPortPairs` as first-match search.
+  `DialRedirectFromHostPortPairs` as first-match search; the direct-domains verdict as C17's
+  per-rule evaluation.
 -/
 import FwdVerif.Model.C05
+import FwdVerif.Lemmas.C17Main
 
 namespace FwdVerif
 namespace C05
@@ -426,6 +428,57 @@ theorem attemptLoop_all_fail (t : Bytes) (i n k : Nat) (rest : List Bool) (h : n
       simp only [List.replicate_succ, List.cons_append, attemptLoop]
       simp only [Bool.false_eq_true, if_false]
       rw [ih (i + 1) k (by omega)]
+
+/-! ## direct-domains: the verdict of a list is C17's union of includes minus excludes -/
+
+/-- whenever a matcher can be built from the list, its verdict is `specMatch`: every rule on its own -/
+theorem directMatch_of_fromList {rules : List C17.Rule} {m : C17.Matcher} (h : C17.fromList rules = .ok m)
+    (host : Bytes) : directMatch rules host = C17.specMatch rules host := by
+  obtain ⟨hi, hr⟩ := C17.fromList_spec h host
+  simp [directMatch, C17.matchesOf, h, C17.Matcher.matches, hi, hr]
+
+/-- a list without include rule (no matcher) matches nothing -/
+theorem directMatch_no_include {rules : List C17.Rule} (h : C17.includes rules = []) (host : Bytes) :
+    directMatch rules host = false := by
+  simp [directMatch, C17.matchesOf, (C17.fromList_noInclude rules).mpr h]
+
+/-- `specMatch` looks at the rules as a set -/
+theorem specMatch_of_mem_iff {l l' : List C17.Rule} (h : ∀ r, r ∈ l ↔ r ∈ l') (s : Bytes) :
+    C17.specMatch l s = C17.specMatch l' s := by
+  have h1 : (C17.includes l).any (·.search s) = (C17.includes l').any (·.search s) := by
+    rw [Bool.eq_iff_iff]; simp only [List.any_eq_true, C17.includes, List.mem_filter]
+    exact ⟨fun ⟨x, ⟨hx, hm⟩, hs⟩ => ⟨x, ⟨(h x).mp hx, hm⟩, hs⟩, fun ⟨x, ⟨hx, hm⟩, hs⟩ => ⟨x, ⟨(h x).mpr hx, hm⟩, hs⟩⟩
+  have h2 : (C17.excludes l).any (·.search s) = (C17.excludes l').any (·.search s) := by
+    rw [Bool.eq_iff_iff]; simp only [List.any_eq_true, C17.excludes, List.mem_filter]
+    exact ⟨fun ⟨x, ⟨hx, hm⟩, hs⟩ => ⟨x, ⟨(h x).mp hx, hm⟩, hs⟩, fun ⟨x, ⟨hx, hm⟩, hs⟩ => ⟨x, ⟨(h x).mpr hx, hm⟩, hs⟩⟩
+  simp only [C17.specMatch, h1, h2]
+
+/-- the selection reads the direct-domains list through its verdicts only -/
+theorem selectProxy_congr_direct (rc : RouteCfg) {l l' : List C17.Rule} (host : Bytes)
+    (h : directMatch l host = directMatch l' host) :
+    selectProxy { rc with directDomains := some l } host = selectProxy { rc with directDomains := some l' } host := by
+  unfold selectProxy proxyFunc wrapDirectLocalhost wrapDirectDomains
+  cases baseFn rc.base with
+  | none => rfl
+  | some f =>
+    simp only []
+    cases rc.localhostDirect <;> simp [h]
+
+/-- a host the list does not match is routed as if `--direct-domains` were not given -/
+theorem selectProxy_direct_no_match {rc : RouteCfg} {l : List C17.Rule} (hd : rc.directDomains = some l) {host : Bytes}
+    (h : directMatch l host = false) :
+    selectProxy rc host = selectProxy { rc with directDomains := none } host := by
+  unfold selectProxy proxyFunc wrapDirectLocalhost wrapDirectDomains
+  simp only [hd]
+  cases baseFn rc.base with
+  | none => rfl
+  | some f =>
+    simp only []
+    cases rc.localhostDirect <;> simp [h]
+
+theorem at_without_direct (c : InstCfg) (q : RouteReq) :
+    ({ c with rc := { c.rc with directDomains := none } } : InstCfg).at q = { c.at q with directDomains := none } := by
+  unfold InstCfg.at; cases c.script <;> rfl
 
 end C05
 end FwdVerif
